@@ -405,7 +405,7 @@ def rule_consumers(chk, prog, tier):
 
 
 def rule_condfold(chk, prog, tier):
-    r = chk.rule('C04.g', 'a conditional expression with a constant condition is either left for run-time evaluation or folded to the arm C selects: integer conditions by value != 0, floating conditions by comparison with 0 (never by bit pattern)', floor=10)
+    r = chk.rule('C04.g', 'a conditional expression with an arithmetic constant condition is folded to the arm C selects - integer conditions by value != 0, floating conditions by comparison with 0 (never by bit pattern) - so that it is a constant expression wherever one is needed; any other condition is left for run-time evaluation', floor=10)
     fn = prog.require_func('condexpr')
     M = models(prog)
     conds = [('int', 0, False), ('int', 2, True), ('uint', 1 << 31, True), ('long', 1 << 40, True), ('double', 0.0, False), ('double', -0.0, False), ('double', 0.5, True),
@@ -436,7 +436,8 @@ def rule_condfold(chk, prog, tier):
         if truth is None:
             ok = got == 'cond'; want = 'an unfolded conditional'
         else:
-            ok = got in ('cond', 'L' if truth else 'R'); want = 'the %s arm (or no folding)' % ('first' if truth else 'second')
+            # an arithmetic constant condition has to be folded: eval() has no arm for EXPRCOND, so an unfolded conditional is 'not a constant expression' in every context that needs one
+            ok = got == ('L' if truth else 'R'); want = 'the %s arm' % ('first' if truth else 'second')
         r.instance(ok, 'condfold:%s:%r' % (ty, val), 'expr.c:%s' % fn.get('line'), 'constant condition (%s) %r must select %s; cproc folds to %s' % (ty, val, want, got))
     r.exhaustive = False
 
